@@ -656,7 +656,7 @@ class Interp:
             raise Raised('TypeError')
         if isinstance(base, dict):
             if is_concrete(k) and not isinstance(k, (list, dict)):
-                if k in base:
+                if k in base or getattr(base, 'default_factory', None) is not None:      # collections.defaultdict creates the entry
                     return base[k]
                 raise Raised('KeyError')
             ent = self.path.symtab.get(id(base), {})
@@ -1365,6 +1365,15 @@ def _b_sorted(it, args, kw):
             return sorted(vals, reverse=kw.get('reverse', False))
         except TypeError:
             raise Raised('TypeError')
+    if is_concrete(vals) and set(kw) <= {'reverse', 'key'} and isinstance(kw.get('reverse', False), bool) and kw.get('key') is not None:
+        # sort keys are computed by the interpreter, element by element; decided only when every key is concrete
+        keys = [it.apply(kw['key'], [v], {}) for v in vals]
+        if all(is_concrete(k) for k in keys):
+            try:
+                order = sorted(range(len(vals)), key=lambda i: keys[i], reverse=kw.get('reverse', False))
+            except TypeError:
+                raise Raised('TypeError')
+            return [vals[i] for i in order]
     return Sym('sorted(%s)' % show(args[0]))
 
 
